@@ -1769,6 +1769,11 @@ var c11edges = []string{
 	"S:pub func foo.w32?(dst: base.io_writer) {\n    args.dst.write_u32be?(a: 7)\n}",
 	"S:pub func foo.w64?(dst: base.io_writer) {\n    args.dst.write_u64le?(a: 7)\n    args.dst.write_u8?(a: 7)\n}",
 	"S:pub func foo.isz() base.bool {\n    return this.x == 0\n}",
+	// non-coroutine functions with an I/O argument and a status / numeric result, leaving through every kind of return
+	"S:pri func foo.helper!(src: base.io_reader) base.status {\n    var s : base.status\n    if args.src.length() > 0 {\n        args.src.skip_u32_fast!(actual: 1, worst_case: 1)\n        s = \"#bad\"\n    }\n    return s\n}\n\npub func foo.use?(src: base.io_reader) {\n    var s : base.status\n    s = this.helper!(src: args.src)\n    if s.is_error() {\n        return s\n    }\n}",
+	"S:pri func foo.helper2!(src: base.io_reader) base.status {\n    if args.src.length() > 0 {\n        args.src.skip_u32_fast!(actual: 1, worst_case: 1)\n        return \"#bad\"\n    }\n    return \"@note\"\n}\n\npub status \"@note\"\n",
+	"S:pri func foo.helper3!(dst: base.io_writer) base.status {\n    var s : base.status\n    if args.dst.length() > 0 {\n        args.dst.write_u8_fast!(a: 1)\n    }\n    s = base.\"#bad argument\"\n    return s\n}",
+	"S:pri func foo.helper4!(src: base.io_reader) base.u32 {\n    var n : base.u32\n    if args.src.length() > 0 {\n        n = args.src.peek_u8_as_u32()\n        args.src.skip_u32_fast!(actual: 1, worst_case: 1)\n        return n\n    }\n    return n + 1\n}",
 	// status messages that differ but map to the same C identifier
 	"R:pub status \"#a b\"\npub status \"#a_b\"\npub struct foo?()\n",
 	"R:pub status \"#a-b\"\npub status \"#a.b\"\npub struct foo?()\n",
@@ -2426,7 +2431,8 @@ func C11D(rc *vk.Rec) {
 	// length guard per escape kind)
 	phase = "quoted"
 	e.budget("quoted", 2, 1, 60, 20)
-	pieces := []string{"a", "\\x", "\\x4", "\\x41", "\\x4g", "\\xG1", "\\\\", "\\'", "\\\"", "\\n", "\\", "\\u", "\\0", "'", "\"", "\x80", " "}
+	pieces := []string{"a", "\\x", "\\x4", "\\x41", "\\x4g", "\\xG1", "\\\\", "\\'", "\\\"", "\\n", "\\", "\\u", "\\0", "'", "\"", "\x80", " ",
+		"\\u00e9", "\\u12", "\\uD800", "\\U0001F600", "\\U0001F60", "\\UFFFFFFFF", "\\U0010FFFF", "\\a", "\\e", "\\?", "\\101"}
 	var bodies []string
 	for _, a := range pieces {
 		bodies = append(bodies, a)
